@@ -92,9 +92,9 @@ _INGEST_REDIR = {'_ZN8manifold8Manifold4Impl10ReserveIDsEj': 'vf_stub_ReserveIDs
 _C09_CFG = [  # name, lengths, tier, numProp (None = arbitrary)
   ('defaults',        (12, 12, 0, 0, 0, 0, 0, 0, 0, 0),  'q', 3),
   ('merge1',          (12, 12, 1, 1, 0, 0, 0, 0, 0, 0),  't', 3),
-  ('merge2',          (12, 12, 2, 2, 0, 0, 0, 0, 0, 0),  'q', 3),
+  ('merge2',          (12, 12, 2, 2, 0, 0, 0, 0, 0, 0),  't', 3),
   ('merge_mismatch',  (12, 12, 2, 1, 0, 0, 0, 0, 0, 0),  't', 3),
-  ('runs_3_2_full',   (12, 12, 0, 0, 3, 2, 24, 2, 4, 0), 'q', 3),
+  ('runs_3_2_full',   (12, 12, 0, 0, 3, 2, 24, 2, 4, 0), 't', 3),
   ('runs_2_2',        (12, 12, 0, 0, 2, 2, 0, 0, 0, 0),  't', 3),
   ('runs_2_1',        (12, 12, 0, 0, 2, 1, 12, 1, 0, 0), 't', 3),
   ('runs_1_1',        (12, 12, 0, 0, 1, 1, 0, 0, 0, 0),  't', 3),
@@ -117,7 +117,7 @@ _C09_CFG = [  # name, lengths, tier, numProp (None = arbitrary)
 def _c09(name, lens, tier, numprop=3, entry='h_ingest64', what='MeshGL64'):
     return dict(name=name, harness='c09_ingest.cpp', entry=entry, defs=dict({'VF_LENS': ','.join(map(str, lens))}, **({'VF_NUMPROP': numprop} if numprop is not None else {})),
                 cuts=_INGEST_CUTS, redirect=_INGEST_REDIR, models=['rbtree.h'],
-                unwind={'default': 13 if lens[9] > 16 else 5, 'h_ingest|sym|fixedvec': 49, 'Rb_tree': 3, 'find_if': 13}, recursion={'default': 2}, backends=['minisat'], timeout=1500, object_bits=12, mem_gb=24,
+                unwind={'default': 13 if lens[9] > 16 else 5, 'h_ingest|sym|fixedvec': 49, 'Rb_tree': 3, 'find_if': 13}, recursion={'default': 2}, backends=['minisat'], timeout=2400 if name.endswith('full') else 1500, object_bits=12, mem_gb=30 if name.endswith('full') else 24, cbmc=(['--slice-formula'] if name.endswith('full') else []),
                 cdefs=['VF_ALLOC_CLASSES=VF_C(4) VF_C(8) VF_C(12) VF_C(16) VF_C(24) VF_C(32) VF_C(48) VF_C(64) VF_C(96) VF_C(192) VF_C(384)'],
                 tiers=['quick', 'thorough'] if tier == 'q' else (['experimental'] if tier == 'x' else ['thorough']),
                 claim='Impl::Impl(%s) up to the call of CreateHalfedges, numProp %s, vector lengths %s (vertProperties, triVerts, mergeFromVert, mergeToVert, runIndex, runOriginalID, runTransform, runFlags, faceID, halfedgeTangent): memory safe, no div-by-zero / overflow / throw for every tolerance and every content; early returns are empty with an error' % (what, ('= %s' % numprop) if numprop is not None else 'ARBITRARY', lens),
@@ -130,7 +130,7 @@ PROPERTIES['C09'] = {
       _c09('ingest32_runs_3_2_full', (12, 12, 0, 0, 3, 2, 24, 2, 4, 0), 't', 3, entry='h_ingest32', what='MeshGL'),
       _c09('ingest32_anyprop_small', (4, 3, 1, 1, 1, 1, 12, 1, 1, 4), 'q', None, entry='h_ingest32', what='MeshGL'),
       dict(name='makeempty', harness='c09_ingest.cpp', entry='h_makeempty', defs={'VF_REAL_MAKEEMPTY': 1, 'VF_LENS': '0,0,0,0,0,0,0,0,0,0'}, models=['rbtree.h'], unwind={'default': 7, 'Rb_tree': 3}, recursion={'default': 2}, backends=['minisat'], timeout=900, object_bits=12, mem_gb=16,
-           claim='Impl::MakeEmpty(status) from an arbitrary small Impl: status set, every container emptied, relation map cleared (the ladder obligations replace MakeEmpty by a recording stub and rely on this)', bounds='<=2 vertices, <=2 triangles, optional relation entry, every Error value', targets=['impl.cpp Manifold::Impl::MakeEmpty'])],
+           claim='Impl::MakeEmpty(status) from an arbitrary small Impl: status set, every container emptied, relation map cleared (the ladder obligations replace MakeEmpty by a recording stub and rely on this)', bounds='2 vertices, 2 triangles, optional relation entry, every Error value', targets=['impl.cpp Manifold::Impl::MakeEmpty'])],
 }
 
 PROPERTIES['C11'] = {
@@ -143,6 +143,8 @@ PROPERTIES['C11'] = {
          claim='PairLexLess (key order of PolySet2) is a strict total order on pairs of non-NaN points', bounds='all finite doubles', targets=['boolean2_sweep.cpp PairLexLess']),
     dict(name='isinside', harness='c11_pred.cpp', entry='h_isinside', backends=['minisat'], timeout=300, unwind={'default': 2},
          claim='IsInside: Add <=> w>0, Intersect <=> w>1, EvenOdd <=> w odd, including negative windings', bounds='all int64 w', targets=['boolean2_sweep.cpp IsInside']),
+    dict(name='classify', harness='c11_pred.cpp', entry='h_classify', backends=['minisat', 'kissat'], timeout=900, unwind={'default': 4}, recursion={'default': 2}, defs={'VF_R': 3}, models=['rbtree.h'],
+         claim='SweepPass::Classify (event point vs status edge) on the lattice: ENDS at the pending end; for a non-vertical edge spanning p.x, UNDER/OVER by the sign of the exact integer orientation and ON at the edge\'s own processed end; vertical edges by their y-range', bounds='integer lattice [-3,3]^2 for l, r, p (double arithmetic of the real Interpolate kernel)', targets=['boolean2_sweep.cpp SweepPass::Classify, YAtX', 'shared.h Interpolate']),
     dict(name='oninterior', harness='c11_pred.cpp', entry='h_oninterior', backends=['minisat', 'kissat'], timeout=600, unwind={'default': 2}, defs={'VF_R': 4},
          claim='OnInterior never reports a point that is not exactly on the open segment (integer cross product, strict betweenness) and reports every such point for axis-aligned segments', bounds='integer lattice [-4,4]^2 for v,a,b (double arithmetic of the real Interpolate kernel)', targets=['boolean2_sweep.cpp OnInterior, YAtX', 'shared.h Interpolate']),
   ],
@@ -217,7 +219,7 @@ PROPERTIES['C15'] = {
          claim='Progress() in [0,1] whenever 0 <= donePhases <= totalPhases; 1 when total == 0 or done == total', bounds='all int counter values', targets=['execution_impl.cpp ExecutionContext::Progress']),
     dict(name='boolean_cancel_any_point', harness='c15_boolean.cpp', entry='h_boolean_cancel', cancel_oracle=True, models=['rbtree.h', 'stdlib.h', 'hash_pmr.h'],
          redirect={'_ZN8manifold14ManifoldParamsEv': 'vf_stub_ManifoldParams'}, unwind={'default': 70}, recursion={'default': 12}, object_bits=13,
-         backends=['minisat'], timeout=3000, mem_gb=30, tiers=['experimental'],
+         backends=['minisat'], timeout=14000, mem_gb=40, tiers=['experimental'],
          claim='Boolean3::Result(Add) of two concrete disjoint tetrahedra under EVERY cancellation schedule (sticky oracle at every atomic load of the cancel flag, i.e. Cancel() taking effect at the k-th check for every k): the result is either Cancelled and empty, or - only if cancellation never became visible - the complete 8-triangle union with donePhases == kPhasesPerBoolean',
          bounds='one concrete operand pair (two tetrahedra, disjoint boxes); symbolic: the cancellation point only', targets=['boolean_result.cpp Boolean3::Result (all 11 phase() sites, PhaseBalance)', 'sort.cpp SortGeometry(ctx)', 'parallel.h for_each(ctx)', 'face_op.cpp Face2Tri', 'edge_op.cpp SimplifyTopology']),
     dict(name='reset_order', harness='c15_cancel.cpp', entry='h_reset_order', cdefs=['VF_HAVE_ENV'], extra_roots=['vf_env'], backends=['minisat', 'kissat'], timeout=600, unwind={'default': 3},
